@@ -26,7 +26,7 @@ META = {
     'shards': {'quick': 8, 'thorough': 16},
     'quotas_fixed': ['exhaustive-2-node-graph-orders'],
     'quotas': {
-        'quick': {'exhaustive-2-node-graph-orders': 3000, 'three-node-graph-orders': 800, 'random-graph-orders': 1500,
+        'quick': {'class:chain-longer-than-200': 25, 'exhaustive-2-node-graph-orders': 3000, 'three-node-graph-orders': 800, 'random-graph-orders': 1500,
                   'generated-graph-orders': 100, 'class:cycle': 200, 'class:self-loop': 200, 'class:gated-parent-of-and': 100,
                   'class:and-mixed-parents': 100, 'labels-compared': 50000, 'class:gated-own-status-parent': 50, 're-analysis-of-the-same-graph': 50},
         'thorough': {'exhaustive-2-node-graph-orders': 14000, 'three-node-graph-orders': 270000, 'random-graph-orders': 200000,
@@ -227,6 +227,19 @@ def run(rng, res, tier, shard, nshards):
             break
         size = rng.choice([4, 4, 5, 6, 8, 10, 15, 25, 40] + ([90, 150] if rng.random() < 0.1 else []))
         desc = agraph.gen_desc(rng, size)
+        if rng.random() < 0.05:
+            # one long chain (205-450 steps) below a source whose label differs from the initial one, a few side edges
+            size = rng.choice([205, 230, 300, 450])
+            head = rng.choice([('defense', 0.0, 'none'), ('defense', 1.0, 'none'), ('exist', False, 'none'), ('notExist', True, 'none'),
+                               ('exist', True, 'none'), ('defense', 0.5, 'dist')])
+            kinds = [head] + [(rng.choice(['or', 'and']), None, 'none') for _ in range(size - 1)]
+            edges = [[i, i + 1] for i in range(size - 1)]
+            for _k in range(rng.randint(0, 3)):
+                a, b = rng.randrange(size), rng.randrange(size)
+                if [a, b] not in edges:
+                    edges.append([a, b])
+            desc = agraph.desc_from_kinds(kinds, edges)
+            res.count('class:chain-longer-than-200')
         orders = [list(range(size))]
         for _k in range(5):
             o = list(range(size))
